@@ -28,6 +28,7 @@ type PKI struct {
 	// server certificates
 	Good      CertPair // CA1, SAN localhost + 127.0.0.1 + ::1
 	GoodDNS   CertPair // CA1, SAN DNS:localhost only
+	GoodIP    CertPair // CA1, SAN 127.0.0.1 + ::1 only
 	WrongHost CertPair // CA1, SAN other.example.net
 	Untrusted CertPair // CA2, SAN localhost + 127.0.0.1
 	Expired   CertPair // CA1, matching, expired yesterday
@@ -106,6 +107,7 @@ func GetPKI() *PKI {
 			CA1: c1.pem, CA2: c2.pem,
 			Good:      c1.issue("localhost", []string{"localhost", "t.example.org"}, lo, false, from, to),
 			GoodDNS:   c1.issue("localhost", []string{"localhost"}, nil, false, from, to),
+			GoodIP:    c1.issue("127.0.0.1", nil, lo, false, from, to),
 			WrongHost: c1.issue("other.example.net", []string{"other.example.net"}, nil, false, from, to),
 			Untrusted: c2.issue("localhost", []string{"localhost"}, lo, false, from, to),
 			Expired:   c1.issue("localhost", []string{"localhost"}, lo, false, now.Add(-72*time.Hour), now.Add(-24*time.Hour)),
